@@ -301,6 +301,45 @@ func factsAtDepth(b *ssa.BasicBlock, depth int) []Atom {
 			}
 		}
 	}
+	// the same for boolean flags: "flag" (resp. "!flag") where flag is a phi of constants and one other edge means the
+	// edge that does not carry the opposite constant was taken (found-flag loops)
+	if depth < 3 {
+		n := len(out)
+		for i := 0; i < n; i++ {
+			a := out[i]
+			if a.Op != "true" && a.Op != "false" {
+				continue
+			}
+			ph, isPhi := a.X.(*ssa.Phi)
+			if !isPhi {
+				continue
+			}
+			feasible, nf := -1, 0
+			for k, e := range ph.Edges {
+				if kc, isK := e.(*ssa.Const); isK && kc.Value != nil {
+					v := kc.Value.ExactString()
+					if (a.Op == "true" && v == "false") || (a.Op == "false" && v == "true") {
+						continue
+					}
+				}
+				feasible = k
+				nf++
+			}
+			if nf == 1 {
+				pred := ph.Block().Preds[feasible]
+				fs := factsAtDepth(pred, depth+1)
+				if ifi, isIf := pred.Instrs[len(pred.Instrs)-1].(*ssa.If); isIf && pred.Succs[0] != pred.Succs[1] {
+					at := condAtom(ifi.Cond, pred.Succs[0] == ph.Block())
+					at.If = ifi
+					fs = append(fs, at)
+				}
+				out = append(out, fs...)
+				if _, isK := ph.Edges[feasible].(*ssa.Const); !isK {
+					out = append(out, Atom{Op: a.Op, X: ph.Edges[feasible], If: a.If})
+				}
+			}
+		}
+	}
 	// after a successful call of a transparent helper, what holds at its nil-error returns holds here
 	if transpMemo != nil || curL != nil {
 		n := len(out)
